@@ -47,12 +47,13 @@ const (
 	opHeartbeat = 4  // n c
 	opClose     = 5  // n c
 	opTick      = 6  // d (units)
+	opStale     = 7  // n c: node n's periodic sweep finds control connection c silent beyond HeartbeatTimeout
 	opSReg      = 10 // n c x ctl
 	opSUnreg    = 11 // n c
 	opSRefresh  = 12 // n c
 )
 
-var opName = map[int]string{0: "Connect", 1: "AuthOK", 2: "AuthFail", 3: "Kick", 4: "Heartbeat", 5: "Close", 6: "Tick",
+var opName = map[int]string{0: "Connect", 1: "AuthOK", 2: "AuthFail", 3: "Kick", 4: "Heartbeat", 5: "Close", 6: "Tick", 7: "StaleSweep",
 	10: "Register", 11: "Unregister", 12: "Refresh"}
 
 type caseIn struct {
@@ -145,7 +146,9 @@ func connNum(s string) int {
 	return n
 }
 
-func ptrShape(backend string) bool { return backend == "memory" || backend == "hybrid-mem" }
+func ptrShape(backend string) bool {
+	return backend == "memory" || backend == "hybrid-mem" || backend == "hybrid-shared-mem"
+}
 
 func newWorld(backend string, nodes int, ttl time.Duration, withSessions bool) *world {
 	ctx, cancel := context.WithCancel(context.Background())
@@ -157,7 +160,7 @@ func newWorld(backend string, nodes int, ttl time.Duration, withSessions bool) *
 	var sharedMem *memory.Storage
 	var sharedHybrid *hybrid.Storage
 	switch backend {
-	case "memory":
+	case "memory", "hybrid-shared-mem":
 		sharedMem = memory.New(ctx)
 	case "hybrid-mem":
 		// the single-node default: hybrid storage whose "shared" keys fall back to the local memory cache
@@ -175,6 +178,9 @@ func newWorld(backend string, nodes int, ttl time.Duration, withSessions bool) *
 			w.st[n] = sharedMem
 		case "hybrid-mem":
 			w.st[n] = sharedHybrid
+		case "hybrid-shared-mem":
+			// tiered storage per node: a private local cache and ONE shared cache (an in-memory one here)
+			w.st[n] = hybrid.NewWithSharedCache(ctx, memory.New(ctx), sharedMem, nil, nil)
 		case "redis":
 			r, err := rstore.New(ctx, &rstore.Config{Addr: w.mr.Addr(), PoolSize: 2})
 			must(err)
@@ -255,6 +261,9 @@ func (w *world) apply(o []int, tr map[[2]int]*transport) bool {
 		return err != nil
 	case opClose:
 		return w.sms[n].CloseConnection(connName(arg(o, 2))) != nil
+	case opStale:
+		w.sms[n].VerifC08SweepStale(connName(arg(o, 2)))
+		return false
 	case opSReg:
 		ct := "control"
 		if arg(o, 4) == 0 {
@@ -378,6 +387,14 @@ func (g *ghost) step(o []int, errFlag bool, now int) {
 		delete(g.conns, [2]int{n, c})
 		delete(g.reg, [2]int{n, c})
 		g.dropConn(c)
+	case opStale:
+		// the sweep only sees connections that are still in the registry; it closes them (CloseConnection)
+		c := arg(o, 2)
+		if _, ok := g.reg[[2]int{n, c}]; ok {
+			delete(g.conns, [2]int{n, c})
+			delete(g.reg, [2]int{n, c})
+			g.dropConn(c)
+		}
 	case opSReg:
 		c, x, ctl := arg(o, 2), arg(o, 3), arg(o, 4)
 		if errFlag {
@@ -431,7 +448,7 @@ func (g *ghost) check(o []int, now int, clients []int, ans [][][3]int, msgs [][]
 					switch arg(o, 0) {
 					case opTick:
 						key = "client-index-expired-despite-heartbeat"
-					case opClose, opSUnreg:
+					case opClose, opSUnreg, opStale:
 						if arg(o, 2) != cu.c {
 							key = "late-unregister-deletes-current-index"
 						}
@@ -468,6 +485,11 @@ var variant [4]int
 func runCase(raw json.RawMessage) interface{} {
 	var c caseIn
 	must(json.Unmarshal(raw, &c))
+	if c.Mode == "conc" {
+		var cc concIn
+		must(json.Unmarshal(raw, &cc))
+		return runConc(cc)
+	}
 	if c.Nodes < 1 {
 		c.Nodes = 2
 	}
